@@ -368,6 +368,7 @@ ASSIGNMENTS = [
     ('preamble_encoding', 'utf-8'), ('preamble_indent', 2),
     ('preamble_line_endings', 'dos'), ('preamble_mimetype', 'text/markdown'),
     ('meta', {'new': [1, {'deep': True}]}), ('meta', {}),
+    ('meta', {'stats': {'insertions': 1, 'custom': 2}, 'path': 'p'}),
     ('meta_encoding', 'utf-32'), ('meta_format', 'json'),
     ('diff', b'--- a\n+++ b\n@@ -1 +1 @@\n-x\n+y\n'), ('diff', b''),
     ('diff_encoding', 'utf-8'), ('diff_line_endings', 'unix'),
